@@ -36,7 +36,7 @@ def make_copy():
 
 def apply_edit(d, m):
     edits = m.get('edits') or [dict(file=m['file'], find=m['find'],
-                                    repl=m['repl'])]
+                                    repl=m['repl'], count=m.get('count', 1))]
     for e in edits:
         path = os.path.join(d, e['file'])
         s = open(path).read()
